@@ -50,6 +50,14 @@ def main():
         r = sh(f"/venv/bin/python {seed}/demo.py", env=env, cwd=tmp)
         res["demo_patched"] = {"exit": r.returncode, "tail": (r.stdout + r.stderr).strip().splitlines()[-2:]}
         res["confirmed"] = res["demo_clean"]["exit"] == 0 and res["demo_patched"]["exit"] != 0 and res["tests_patched"].startswith("171 passed")
+        before = a[a.index("--before") + 1] if "--before" in a else None
+        if before:
+            # the same checks as they stood in an earlier snapshot of /verif (a scratch checkout outside /verif)
+            res["checks_before"] = {"harness_commit": sh(f"git -C {before} log --format=%h -1").stdout.strip()}
+            benv = dict(os.environ, NETQASM_REPO=repo, VERIF_EVIDENCE_DIR=tmp + "/evb", VERIF_REPLAY_DIR=tmp + "/rpb")
+            for p in props:
+                r = subprocess.run(["/venv/bin/python", before + "/run_check.py", p, "--tier", tier], capture_output=True, text=True, env=benv, cwd=before)
+                res["checks_before"][p] = {0: "MISSED", 1: "CAUGHT"}.get(r.returncode, "ERROR")
         res["checks"] = {}
         cenv = dict(os.environ, NETQASM_REPO=repo, VERIF_EVIDENCE_DIR=tmp + "/ev", VERIF_REPLAY_DIR=tmp + "/rp")
         for p in props:
@@ -80,6 +88,16 @@ def main():
                     "tier": tier,
                 },
             }
+            if before:
+                meta["ran"]["checks_before_strengthening"] = res["checks_before"]
+                b = {k: v for k, v in res["checks_before"].items() if k != "harness_commit"}
+                now = {k: v["verdict"] for k, v in res["checks"].items()}
+                if any(v == "CAUGHT" for v in b.values()):
+                    meta["history"] = "caught from the start (" + ", ".join(k for k, v in b.items() if v == "CAUGHT") + ")"
+                elif any(v == "CAUGHT" for v in now.values()):
+                    meta["history"] = ("harness error at first; " if any(v == "ERROR" for v in b.values()) else "missed at first; ") + "caught after strengthening"
+                else:
+                    meta["history"] = "missed"
             with open(os.path.join(dst, "meta.json"), "w") as fh:
                 json.dump(meta, fh, indent=1)
         return 0
